@@ -18,7 +18,7 @@ package xixi_kv
 //@ pred olderSep(db) = forall id :: {db.olderFiles[id]} has(db.olderFiles, id) ==> dyn(db.olderFiles[id].ReadWriter) != dyn(db.activeFile.ReadWriter) && arr(db.olderFiles[id].headerBuf) != arr(db.logRecordHeader)
 //@ pred olderOK(db) = olderIds(db) && olderInv(db) && olderFlushed(db) && olderSep(db)
 //@ pred INV_files(db) = db != nil && db.activeFile != nil && db.olderFiles != nil && INV_df(db.activeFile) && !db.activeFile.closed && db.activeFile.kind == datafile.DataFileSuffix && (arr(db.hintPos) == 0 || len(db.hintPos) == 25) && len(db.logRecordHeader) == 21 && arr(db.logRecordHeader) != arr(db.activeFile.headerBuf) && owned(db.logRecordHeader) && owned(db.activeFile.headerBuf) && db.bytesWrite <= db.activeFile.ReadWriter.size && db.options.DataFileSize > 0 && (db.options.SyncStrategy == Threshold ==> db.options.BytesPerSync > 0) && olderOK(db)
-//@ pred INV_db(db) = INV_files(db) && db.index != nil && db.recordPool != nil
+//@ pred INV_db(db) = INV_files(db) && db.index != nil && db.recordPool != nil && INV_index(db.index)
 // space accounting: DiskSize - ReclaimableSize is the number of bytes occupied by the live records
 //@ pred ACC(db) = db.totalSize - db.reclaimSize == db.index.live && 0 <= db.reclaimSize && 0 <= db.index.live
 // every indexed position names a file the database holds open, at a valid in-block offset
@@ -109,9 +109,9 @@ package xixi_kv
 //@   ensures [always]    result == nil && db.options.SyncStrategy == Always ==> db.activeFile.ReadWriter.durable == db.activeFile.ReadWriter.size
 //@   ensures [threshold] result == nil && db.options.SyncStrategy == Threshold ==> db.bytesWrite < db.options.BytesPerSync
 //@   ensures [count]     result == nil ==> db.index.count == old(db.index.count) + (old(db.index.model)[old(keyid(key))] == 0 ? 1 : 0)
-//@   at (*xixi_kv.DB).appendLogRecord assert [one-section] db.mu.heldW && db.mu.sections == old(db.mu.sections) + 1
-//@   at (*index.ShardedIndex).Put assert [one-section] db.mu.heldW && db.mu.sections == old(db.mu.sections) + 1
-//@   modifies db.activeFile, db.olderFiles[*], db.totalSize, db.bytesWrite, db.reclaimSize, db.logRecordHeader[*], db.activeFile.lastBlockID, db.activeFile.lastBlockSize, db.activeFile.headerBuf[*], db.activeFile.ReadWriter.size, db.activeFile.ReadWriter.data, db.activeFile.ReadWriter.writes, db.activeFile.ReadWriter.durable, db.index.model, db.index.count, db.index.live, db.mu.heldW, db.mu.sections
+//@   at (*xixi_kv.DB).appendLogRecord assert [one-section] db.mu.heldW && !called("(*sync.RWMutex).Unlock")
+//@   at (*index.ShardedIndex).Put assert [one-section] db.mu.heldW && !called("(*sync.RWMutex).Unlock")
+//@   modifies db.activeFile, db.olderFiles[*], db.totalSize, db.bytesWrite, db.reclaimSize, db.logRecordHeader[*], db.activeFile.lastBlockID, db.activeFile.lastBlockSize, db.activeFile.headerBuf[*], db.activeFile.ReadWriter.size, db.activeFile.ReadWriter.data, db.activeFile.ReadWriter.writes, db.activeFile.ReadWriter.durable, db.index.model, db.index.count, db.index.live, db.mu.heldW
 
 //@ func (*xixi_kv.DB).Delete
 //@   io_effect
@@ -128,10 +128,10 @@ package xixi_kv
 //@   ensures [no-internal-error] result != ErrIndexUpdateFailed
 //@   ensures [err-frame] result != nil ==> db.index.model == old(db.index.model)
 //@   ensures [always]    result == nil && db.options.SyncStrategy == Always ==> db.activeFile.ReadWriter.durable == db.activeFile.ReadWriter.size || old(db.index.model)[old(keyid(key))] == 0
-//@   at (*index.ShardedIndex).Get assert [check-in-section] db.mu.heldW && db.mu.sections == old(db.mu.sections) + 1
-//@   at (*xixi_kv.DB).appendLogRecord assert [one-section] db.mu.heldW && db.mu.sections == old(db.mu.sections) + 1
-//@   at (*index.ShardedIndex).Delete assert [one-section] db.mu.heldW && db.mu.sections == old(db.mu.sections) + 1
-//@   modifies db.activeFile, db.olderFiles[*], db.totalSize, db.bytesWrite, db.reclaimSize, db.logRecordHeader[*], db.activeFile.lastBlockID, db.activeFile.lastBlockSize, db.activeFile.headerBuf[*], db.activeFile.ReadWriter.size, db.activeFile.ReadWriter.data, db.activeFile.ReadWriter.writes, db.activeFile.ReadWriter.durable, db.index.model, db.index.count, db.index.live, db.mu.heldW, db.mu.sections
+//@   at (*index.ShardedIndex).Get assert [check-in-section] db.mu.heldW && !called("(*sync.RWMutex).Unlock")
+//@   at (*xixi_kv.DB).appendLogRecord assert [one-section] db.mu.heldW && !called("(*sync.RWMutex).Unlock")
+//@   at (*index.ShardedIndex).Delete assert [one-section] db.mu.heldW && !called("(*sync.RWMutex).Unlock")
+//@   modifies db.activeFile, db.olderFiles[*], db.totalSize, db.bytesWrite, db.reclaimSize, db.logRecordHeader[*], db.activeFile.lastBlockID, db.activeFile.lastBlockSize, db.activeFile.headerBuf[*], db.activeFile.ReadWriter.size, db.activeFile.ReadWriter.data, db.activeFile.ReadWriter.writes, db.activeFile.ReadWriter.durable, db.index.model, db.index.count, db.index.live, db.mu.heldW
 
 //@ func (*xixi_kv.DB).getValueByPosition
 //@   props C01 C08 C09 C12
@@ -163,7 +163,7 @@ package xixi_kv
 //@   ensures [unlocked] !db.mu.heldW && !db.mu.heldR
 //@   ensures [flushed] result == nil ==> db.activeFile.ReadWriter.durable == db.activeFile.ReadWriter.size
 //@   ensures [inv]     INV_db(db)
-//@   modifies db.activeFile.ReadWriter.durable, db.mu.heldW, db.mu.sections
+//@   modifies db.activeFile.ReadWriter.durable, db.mu.heldW
 
 //@ func (*xixi_kv.DB).Stat
 //@   props C17 C09
@@ -190,7 +190,7 @@ package xixi_kv
 //@   panics_ok
 //@   requires [api]  API(db)
 //@   ensures [batch] result != nil && fresh(result) && result.db == db && !result.committed && db.mu.heldW && result.batchID > 0 && len(result.staged) == 0 && result.cachedDataSize == 0 && !result.mu.heldW && !result.mu.heldR
-//@   modifies db.mu.heldW, db.mu.sections
+//@   modifies db.mu.heldW
 
 //@ func (*xixi_kv.Batch).findPendingRecord
 //@   props C05
@@ -260,7 +260,7 @@ package xixi_kv
 //@   ensures [value-copied] result == nil && b.db.activeFile == old(b.db.activeFile) && called("(*xixi_kv.Batch).findPendingRecord") && result_of("(*xixi_kv.Batch).findPendingRecord") != nil && len(value) > 0 ==> arr(result_of("(*xixi_kv.Batch).findPendingRecord").Value) != arr(value) && arr(result_of("(*xixi_kv.Batch).findPendingRecord").Key) != arr(key)
 //@   ensures [appended-is-put] result == nil && !old(b.committed) && len(key) > 0 && (b.db.activeFile != old(b.db.activeFile) || result_of("(*xixi_kv.Batch).findPendingRecord") == nil) ==> len(b.staged) > 0 && b.staged[len(b.staged) - 1].Type == datafile.LogRecordNormal && arr(b.staged[len(b.staged) - 1].Key) != arr(key) && (len(value) == 0 || arr(b.staged[len(b.staged) - 1].Value) != arr(value))
 //@   ensures [inv] result == nil ==> stagedRecs(b) && stageIdxOK(b) && stagedOwned(b) && len(b.staged) <= 268435456
-//@   modifies b.mu.heldW, b.mu.sections, b.staged, b.staged[*], b.stageIndex, b.stageIndex[*], arrays:int, arrays:byte, b.cachedDataSize, b.staged[*].BatchID, b.staged[*].Key, b.staged[*].Value, b.staged[*].Type, b.db.activeFile, b.db.olderFiles[*], b.db.totalSize, b.db.bytesWrite, b.db.reclaimSize, b.db.logRecordHeader[*], b.db.activeFile.lastBlockID, b.db.activeFile.lastBlockSize, b.db.activeFile.headerBuf[*], b.db.activeFile.bufferedWrites, b.db.activeFile.bufferedWrites[*], b.db.activeFile.ReadWriter.size, b.db.activeFile.ReadWriter.data, b.db.activeFile.ReadWriter.writes, b.db.activeFile.ReadWriter.durable, b.db.index.model, b.db.index.count, b.db.index.live
+//@   modifies b.mu.heldW, b.staged, b.staged[*], b.stageIndex, b.stageIndex[*], arrays:int, arrays:byte, b.cachedDataSize, b.staged[*].BatchID, b.staged[*].Key, b.staged[*].Value, b.staged[*].Type, b.db.activeFile, b.db.olderFiles[*], b.db.totalSize, b.db.bytesWrite, b.db.reclaimSize, b.db.logRecordHeader[*], b.db.activeFile.lastBlockID, b.db.activeFile.lastBlockSize, b.db.activeFile.headerBuf[*], b.db.activeFile.bufferedWrites, b.db.activeFile.bufferedWrites[*], b.db.activeFile.ReadWriter.size, b.db.activeFile.ReadWriter.data, b.db.activeFile.ReadWriter.writes, b.db.activeFile.ReadWriter.durable, b.db.index.model, b.db.index.count, b.db.index.live
 
 //@ func (*xixi_kv.Batch).Delete
 //@   io_effect
@@ -276,7 +276,7 @@ package xixi_kv
 //@   ensures [absent-is-noop] result == nil && !old(b.committed) && len(key) > 0 && called("(*index.ShardedIndex).Get") && result_of("(*index.ShardedIndex).Get") == nil ==> len(b.staged) == old(len(b.staged))
 //@   ensures [cached-size-shrinks] result == nil && called("(*xixi_kv.Batch).findPendingRecord") && result_of("(*xixi_kv.Batch).findPendingRecord") != nil ==> b.cachedDataSize <= old(b.cachedDataSize)
 //@   ensures [inv] result == nil ==> stagedRecs(b) && stageIdxOK(b) && stagedOwned(b) && len(b.staged) <= 268435456
-//@   modifies b.mu.heldW, b.mu.sections, b.staged, b.staged[*], b.stageIndex, b.stageIndex[*], arrays:int, arrays:byte, b.cachedDataSize, b.staged[*].BatchID, b.staged[*].Key, b.staged[*].Value, b.staged[*].Type, b.db.activeFile, b.db.olderFiles[*], b.db.totalSize, b.db.bytesWrite, b.db.reclaimSize, b.db.logRecordHeader[*], b.db.activeFile.lastBlockID, b.db.activeFile.lastBlockSize, b.db.activeFile.headerBuf[*], b.db.activeFile.bufferedWrites, b.db.activeFile.bufferedWrites[*], b.db.activeFile.ReadWriter.size, b.db.activeFile.ReadWriter.data, b.db.activeFile.ReadWriter.writes, b.db.activeFile.ReadWriter.durable, b.db.index.model, b.db.index.count, b.db.index.live
+//@   modifies b.mu.heldW, b.staged, b.staged[*], b.stageIndex, b.stageIndex[*], arrays:int, arrays:byte, b.cachedDataSize, b.staged[*].BatchID, b.staged[*].Key, b.staged[*].Value, b.staged[*].Type, b.db.activeFile, b.db.olderFiles[*], b.db.totalSize, b.db.bytesWrite, b.db.reclaimSize, b.db.logRecordHeader[*], b.db.activeFile.lastBlockID, b.db.activeFile.lastBlockSize, b.db.activeFile.headerBuf[*], b.db.activeFile.bufferedWrites, b.db.activeFile.bufferedWrites[*], b.db.activeFile.ReadWriter.size, b.db.activeFile.ReadWriter.data, b.db.activeFile.ReadWriter.writes, b.db.activeFile.ReadWriter.durable, b.db.index.model, b.db.index.count, b.db.index.live
 
 //@ func (*xixi_kv.Batch).Get
 //@   ownership
@@ -306,7 +306,7 @@ package xixi_kv
 //@   ensures [empty-batch-writes-nothing] !old(b.committed) && old(len(b.staged)) == 0 ==> result == nil && b.db.activeFile == old(b.db.activeFile) && b.db.activeFile.ReadWriter.size == old(b.db.activeFile.ReadWriter.size)
 //@   at (*datafile.DataFile).WriteLogRecord assert [sealed-carries-batch-id] arg1.Type == datafile.LogRecordBatchFinished && arg1.BatchID == b.batchID && arg1.BatchID > 0 && arg0 == b.db.activeFile
 //@   at (*datafile.DataFile).WriteLogRecord assert [seal-after-records] len(b.staged) == 0 && len(b.db.activeFile.bufferedWrites) == 0 && b.db.mu.heldW
-//@   modifies b.committed, b.mu.heldW, b.mu.sections, b.db.mu.heldW, b.staged, b.stageIndex, b.cachedDataSize, b.staged[*].BatchID, b.staged[*].Key, b.staged[*].Value, b.staged[*].Type, b.db.activeFile, b.db.olderFiles[*], b.db.totalSize, b.db.bytesWrite, b.db.reclaimSize, b.db.logRecordHeader[*], b.db.activeFile.lastBlockID, b.db.activeFile.lastBlockSize, b.db.activeFile.headerBuf[*], b.db.activeFile.bufferedWrites, b.db.activeFile.bufferedWrites[*], b.db.activeFile.ReadWriter.size, b.db.activeFile.ReadWriter.data, b.db.activeFile.ReadWriter.writes, b.db.activeFile.ReadWriter.durable, b.db.index.model, b.db.index.count, b.db.index.live
+//@   modifies b.committed, b.mu.heldW, b.db.mu.heldW, b.staged, b.stageIndex, b.cachedDataSize, b.staged[*].BatchID, b.staged[*].Key, b.staged[*].Value, b.staged[*].Type, b.db.activeFile, b.db.olderFiles[*], b.db.totalSize, b.db.bytesWrite, b.db.reclaimSize, b.db.logRecordHeader[*], b.db.activeFile.lastBlockID, b.db.activeFile.lastBlockSize, b.db.activeFile.headerBuf[*], b.db.activeFile.bufferedWrites, b.db.activeFile.bufferedWrites[*], b.db.activeFile.ReadWriter.size, b.db.activeFile.ReadWriter.data, b.db.activeFile.ReadWriter.writes, b.db.activeFile.ReadWriter.durable, b.db.index.model, b.db.index.count, b.db.index.live
 
 // ---------------------------------------------------------------------------------------------
 // Merge adoption over the abstract file system (ghost global fs: path -> content identity, 0 = absent)
@@ -374,8 +374,8 @@ package xixi_kv
 // ---------------------------------------------------------------------------------------------
 
 //@ func xixi_kv.checkOptions
-//@   props C13 C16
-//@   ensures [valid] result == nil ==> options.DataFileSize > 0 && (options.SyncStrategy == Threshold ==> options.BytesPerSync > 0)
+//@   props C13 C16 C14 C02 C09
+//@   ensures [valid] result == nil ==> options.DataFileSize > 0 && (options.SyncStrategy == Threshold ==> options.BytesPerSync > 0) && options.ShardNum >= 1
 //@   modifies nothing
 
 // trusted: depends on os.ReadDir returning entries sorted by name and on the %09d file names
@@ -395,12 +395,12 @@ package xixi_kv
 //@   props C18 C02 C16
 //@   io_effect
 //@   unshared db
-//@   requires [db] db.index != nil && ACC(db) && db.totalSize == 0
+//@   requires [db] INV_index(db.index) && ACC(db) && db.totalSize == 0
 //@   ensures [foreign-errors] !engineErr(result1)
 //@   assume  [hint-keys-are-distinct-and-counters-do-not-overflow] result1 == nil ==> ACC(db) && db.totalSize <= 4611686018427387904 && db.reclaimSize == 0
 //@   modifies db.totalSize, db.index.model, db.index.count, db.index.live
 //@   loop 1
-//@     invariant [reader] INV_reader(reader) && reader.dataFile.kind == datafile.HintFileSuffix && db.index != nil && reader.dataFile == hintFile
+//@     invariant [reader] INV_reader(reader) && reader.dataFile.kind == datafile.HintFileSuffix && INV_index(db.index) && reader.dataFile == hintFile
 
 //@ func xixi_kv.Open
 //@   props C16 C02 C09
@@ -425,7 +425,7 @@ package xixi_kv
 //@   ensures [released] !db.fileLock.held
 //@   ensures [unlocked] !db.mu.heldW && !db.mu.heldR
 //@   ensures [all-flushed] result == nil ==> old(db.activeFile).closed && old(db.activeFile).ReadWriter.closed && old(db.activeFile).ReadWriter.durable == old(db.activeFile).ReadWriter.size && (forall id :: {old(db.olderFiles[id])} old(has(db.olderFiles, id)) ==> old(db.olderFiles[id]).closed && old(db.olderFiles[id]).ReadWriter.closed && old(db.olderFiles[id]).ReadWriter.durable == old(db.olderFiles[id]).ReadWriter.size)
-//@   modifies db.mu.heldW, db.mu.sections, db.fileLock.held, db.olderFiles, type:datafile.DataFile.closed, type:fio.ReadWriter.closed, type:fio.ReadWriter.durable
+//@   modifies db.mu.heldW, db.fileLock.held, db.olderFiles, type:datafile.DataFile.closed, type:fio.ReadWriter.closed, type:fio.ReadWriter.durable
 //@   loop 1
 //@     invariant [closed-so-far] forall id :: {db.olderFiles[id]} seen(id) ==> db.olderFiles[id].closed && db.olderFiles[id].ReadWriter.closed && db.olderFiles[id].ReadWriter.durable == db.olderFiles[id].ReadWriter.size
 //@     invariant [kept] db.mu.heldW && db.fileLock.held && db.olderFiles == old(db.olderFiles) && (forall id :: {db.olderFiles[id]} has(db.olderFiles, id) ==> db.olderFiles[id] != nil && db.olderFiles[id].ReadWriter != nil && db.olderFiles[id].ID == id && (!seen(id) ==> !db.olderFiles[id].closed)) && db.activeFile == old(db.activeFile) && old(db.activeFile).closed && old(db.activeFile).ReadWriter.closed && old(db.activeFile).ReadWriter.durable == old(db.activeFile).ReadWriter.size && db.mu == old(db.mu) && db.fileLock == old(db.fileLock)
@@ -433,7 +433,7 @@ package xixi_kv
 // one step of index recovery: a put or a delete, with the space accounting of the live path
 //@ func (*xixi_kv.DB).loadIndexFromDataFiles$1
 //@   props C02 C17
-//@   requires [db]  db != nil && db.index != nil && pos != nil
+//@   requires [db]  db != nil && INV_index(db.index) && pos != nil
 //@   requires [no-overflow] db.totalSize <= 6917529027641081856 && db.reclaimSize <= 6917529027641081856
 //@   requires [acc] ACC(db)
 //@   ensures [acc]  ACC(db)
@@ -445,7 +445,7 @@ package xixi_kv
 //@ func (*xixi_kv.DB).loadIndexFromDataFiles
 //@   props C02 C04 C17 C12 C16
 //@   unshared db
-//@   requires [db]    db.index != nil && db.activeFile != nil && db.olderFiles != nil && INV_df(db.activeFile) && !db.activeFile.closed && db.activeFile.kind == datafile.DataFileSuffix && olderInv(db) && olderFlushed(db)
+//@   requires [db]    INV_index(db.index) && db.activeFile != nil && db.olderFiles != nil && INV_df(db.activeFile) && !db.activeFile.closed && db.activeFile.kind == datafile.DataFileSuffix && olderInv(db) && olderFlushed(db)
 //@   requires [ids]   forall i :: {fileIds[i]} 0 <= i && i < len(fileIds) ==> fileIds[i] == db.activeFile.ID || has(db.olderFiles, fileIds[i])
 //@   requires [acc]   ACC(db) && db.totalSize == 0 || (ACC(db) && db.totalSize <= 4611686018427387904 && db.reclaimSize <= 4611686018427387904)
 //@   ensures [acc]    result == nil ==> ACC(db)
@@ -455,16 +455,16 @@ package xixi_kv
 //@   content
 //@   modifies db.totalSize, db.reclaimSize, db.index.model, db.index.count, db.index.live
 //@   loop 1
-//@     invariant [acc] ACC(db) && db.index != nil && db.activeFile == old(db.activeFile) && db.olderFiles == old(db.olderFiles) && transactionRecords != nil && fresh(transactionRecords)
+//@     invariant [acc] ACC(db) && INV_index(db.index) && db.activeFile == old(db.activeFile) && db.olderFiles == old(db.olderFiles) && transactionRecords != nil && fresh(transactionRecords)
 //@     invariant [pending] forall id, j :: {transactionRecords[id][j]} has(transactionRecords, id) && 0 <= j && j < len(transactionRecords[id]) ==> transactionRecords[id][j] != nil && transactionRecords[id][j].Record != nil && transactionRecords[id][j].Pos != nil && transactionRecords[id][j].Record.Type != datafile.LogRecordBatchFinished
 //@     invariant [pending-own] forall id :: {transactionRecords[id]} has(transactionRecords, id) ==> arr(transactionRecords[id]) == 0 || fresh(transactionRecords[id])
 //@   loop 2
-//@     invariant [acc] ACC(db) && db.index != nil && db.activeFile == old(db.activeFile) && db.olderFiles == old(db.olderFiles) && transactionRecords != nil && fresh(transactionRecords)
+//@     invariant [acc] ACC(db) && INV_index(db.index) && db.activeFile == old(db.activeFile) && db.olderFiles == old(db.olderFiles) && transactionRecords != nil && fresh(transactionRecords)
 //@     invariant [reader] INV_reader(reader) && reader.dataFile.kind == datafile.DataFileSuffix && !reader.dataFile.closed
 //@     invariant [pending] forall id, j :: {transactionRecords[id][j]} has(transactionRecords, id) && 0 <= j && j < len(transactionRecords[id]) ==> transactionRecords[id][j] != nil && transactionRecords[id][j].Record != nil && transactionRecords[id][j].Pos != nil && transactionRecords[id][j].Record.Type != datafile.LogRecordBatchFinished
 //@     invariant [pending-own] forall id :: {transactionRecords[id]} has(transactionRecords, id) ==> arr(transactionRecords[id]) == 0 || fresh(transactionRecords[id])
 //@   loop 3
-//@     invariant [acc] ACC(db) && db.index != nil && db.activeFile == old(db.activeFile) && db.olderFiles == old(db.olderFiles) && transactionRecords != nil && fresh(transactionRecords)
+//@     invariant [acc] ACC(db) && INV_index(db.index) && db.activeFile == old(db.activeFile) && db.olderFiles == old(db.olderFiles) && transactionRecords != nil && fresh(transactionRecords)
 //@     invariant [reader] INV_reader(reader) && reader.dataFile.kind == datafile.DataFileSuffix && !reader.dataFile.closed
 //@     invariant [pending] forall id, j :: {transactionRecords[id][j]} has(transactionRecords, id) && 0 <= j && j < len(transactionRecords[id]) ==> transactionRecords[id][j] != nil && transactionRecords[id][j].Record != nil && transactionRecords[id][j].Pos != nil && transactionRecords[id][j].Record.Type != datafile.LogRecordBatchFinished
 //@     invariant [pending-own] forall id :: {transactionRecords[id]} has(transactionRecords, id) ==> arr(transactionRecords[id]) == 0 || fresh(transactionRecords[id])
@@ -510,7 +510,7 @@ package xixi_kv
 //@   at (*datafile.DataFile).WriteMergeFinRecord assert [all-closed-before-marker] hintFile.closed && hintFile.ReadWriter.closed && hintFile.ReadWriter.durable == hintFile.ReadWriter.size && mergeDB.activeFile.closed && mergeDB.activeFile.ReadWriter.closed && mergeDB.activeFile.ReadWriter.durable == mergeDB.activeFile.ReadWriter.size && (forall id :: {mergeDB.olderFiles[id]} has(mergeDB.olderFiles, id) ==> mergeDB.olderFiles[id].closed && mergeDB.olderFiles[id].ReadWriter.closed && mergeDB.olderFiles[id].ReadWriter.durable == mergeDB.olderFiles[id].ReadWriter.size)
 //@   at os.RemoveAll assert [only-the-merge-directory] arg0 == mergeDirOf(db.options.DirPath)
 //@   at (*xixi_kv.DB).setActiveFile assert [starts-from-an-empty-merge-directory] arg0.options.DirPath == mergeDirOf(db.options.DirPath) && (forall p :: {fs[p]} fnameDir(p) == mergeDirOf(db.options.DirPath) ==> fs[p] == 0)
-//@   modifies db.mu.heldW, db.mu.sections, db.isMerging, db.hintPos, db.hintPos[*], db.activeFile, db.olderFiles[*], db.bytesWrite, db.activeFile.ReadWriter.durable
+//@   modifies db.mu.heldW, db.isMerging, db.hintPos, db.hintPos[*], db.activeFile, db.olderFiles[*], db.bytesWrite, db.activeFile.ReadWriter.durable
 //@   loop 1
 //@     invariant [locked] db.mu.heldW && !db.mu.heldR && db.isMerging && INV_db(db) && db.mu == old(db.mu) && db.index == old(db.index) && nonMergeFileId == db.activeFile.ID && nonMergeFileId > 0
 //@     invariant [inputs] mergeInput(mergeFiles, nonMergeFileId) && (arr(mergeFiles) == 0 || fresh(mergeFiles))
